@@ -32,12 +32,24 @@ Definition c0 : counter := mkc 0 0 0 0 0 0.
 Definition popsize (c : counter) : N :=
   4 + prefix (n_atv c) + s_atv c + prefix (n_vtb c) + s_vtb c + prefix (n_vbk c) + s_vbk c.
 
+(** lengthPrefixGrowth(count) = singleBEValueSize(count + 1) - singleBEValueSize(count), size_t arithmetic *)
+Definition growth (n : N) : N := prefix (n + 1) - prefix n.
+
+Definition count_ok (L : limits) (c : counter) (k : kind) : bool :=
+  match k with
+  | KVbk => n_vbk c <? max_vbk L
+  | KVtb => n_vtb c <? max_vtb L
+  | KAtv => n_atv c <? max_atv L
+  end.
+Definition count_of (c : counter) (k : kind) : N :=
+  match k with KVbk => n_vbk c | KVtb => n_vtb c | KAtv => n_atv c end.
+
+(** canFit as coded now: the size passed to canFitSize includes the growth of the kind's length prefix *)
 Definition can_fit (L : limits) (c : counter) (k : kind) (size : N) : bool :=
-  (match k with
-   | KVbk => n_vbk c <? max_vbk L
-   | KVtb => n_vtb c <? max_vtb L
-   | KAtv => n_atv c <? max_atv L
-   end) && (popsize c + size <=? max_size L).
+  count_ok L c k && (popsize c + (size + growth (count_of c k)) <=? max_size L).
+(** canFit before the repair: the prefix of the CURRENT count is priced *)
+Definition can_fit_v0 (L : limits) (c : counter) (k : kind) (size : N) : bool :=
+  count_ok L c k && (popsize c + size <=? max_size L).
 
 Definition update (c : counter) (k : kind) (size : N) : counter :=
   match k with
@@ -55,13 +67,16 @@ Definition keep (r : kept) (k : kind) (size : N) : kept :=
   | KAtv => mkk (k_vbk r) (k_vtb r) (size :: k_atv r)
   end.
 
-Fixpoint filter_fit (L : limits) (cands : list (kind * N * bool)) (c : counter) (r : kept) : counter * kept :=
+Fixpoint filter_fit_with (cf : limits -> counter -> kind -> N -> bool)
+         (L : limits) (cands : list (kind * N * bool)) (c : counter) (r : kept) : counter * kept :=
   match cands with
   | [] => (c, r)
   | (k, size, valid) :: rest =>
-    if can_fit L c k size && valid then filter_fit L rest (update c k size) (keep r k size)
-    else filter_fit L rest c r
+    if cf L c k size && valid then filter_fit_with cf L rest (update c k size) (keep r k size)
+    else filter_fit_with cf L rest c r
   end.
+Definition filter_fit := filter_fit_with can_fit.
+Definition filter_fit_v0 := filter_fit_with can_fit_v0.
 
 Definition est_kept (r : kept) : N := estimate (k_vbk r) (k_vtb r) (k_atv r).
 (** assertPopDataFits *)
@@ -89,6 +104,29 @@ Section Machine.
     | [] => s
     | p :: r => unapply_all r (unexec p s)
     end.
+  (** filterInvalidPayloads with its two pre-tests (canFit, stateless duplicate), which only look at the candidate
+      and at what has been kept so far; [applied] is in reverse order *)
+  Variable pre : P -> list P -> bool.
+  Fixpoint filter_apply (ps : list P) (s : S) (applied : list P) : S * list P :=
+    match ps with
+    | [] => (s, applied)
+    | p :: r =>
+      if pre p applied then
+        match exec p s with
+        | Some s' => filter_apply r s' (p :: applied)
+        | None => filter_apply r s applied
+        end
+      else filter_apply r s applied
+    end.
+  (** a block body: every payload must execute, in order *)
+  Fixpoint exec_all (ps : list P) (s : S) : option S :=
+    match ps with
+    | [] => Some s
+    | p :: r => match exec p s with Some s' => exec_all r s' | None => None end
+    end.
+  (** what generatePopData returns: the kept payloads in their final order *)
+  Definition generated (s : S) (ps : list P) : list P := rev (snd (filter_apply ps (add_temp s) [])).
+
   Definition generate_machine (s : S) (ps : list P) : S :=
     let '(s1, ap) := apply_all ps (add_temp s) [] in remove_temp (unapply_all ap s1).
 End Machine.
